@@ -23,7 +23,7 @@ def histories(rng, shapes, tier):
             out.append(Fm.Workload(sh, k % 3, 1 + (k // 3) % 3, ops, "exhaustive"))
     # batches of exactly k*max and k*max+1, long random histories
     for sh in use:
-        for mx in (1, 2, 3):
+        for mx in (1, 2, 3, 8, 16):           # (8, 16: a page of bools that fills its last byte exactly)
             for kk in (1, 2, 3):
                 for extra in (0, 1):
                     ops = [pools[sh.name][i % 4] for i in range(kk * mx + extra)] + ["W", "W"] + [pools[sh.name][0]] * extra
